@@ -17,6 +17,9 @@ package alephium
 //   odd = odd-length hex, nonhex = non-hex characters, vU256 / vBool / vNone other variants, tag: ByteVec typed "U256"
 
 import (
+	"time"
+	"sync/atomic"
+	"sync"
 	"bytes"
 	"encoding/binary"
 	"encoding/hex"
@@ -419,5 +422,41 @@ func TestVerifAlphDecode(t *testing.T) {
 			tr.Emit(1, "Id", map[string]interface{}{"c": c}, adIdOne(c, r))
 		}
 	}
+	// The node decodes events on two goroutines (the event poller and the re-observation handler): the same cases
+	// again, several goroutines at once, each with its own slice of the cases.  Decoding is a function of the event,
+	// so every line is judged by the specification exactly like a sequential one.
+	workers := 8
+	budget := 1500 * time.Millisecond
+	if inp.Reps > 1 {
+		budget = 8 * time.Second // thorough tier
+	}
+	var wg sync.WaitGroup
+	var emitted int64
+	deadline := time.Now().Add(budget)
+	for w := 0; w < workers; w++ {
+		wg.Add(1)
+		go func(w int) {
+			defer wg.Done()
+			rw := rand.New(rand.NewSource(seed*104729 + int64(w)))
+			seen := map[string]bool{} // one line per distinct (case, time, outcome): repeats add nothing for TLC
+			for round := 0; round < 3 || time.Now().Before(deadline); round++ {
+				for i, c := range inp.Cases {
+					if i%workers != w {
+						continue
+					}
+					ts := inp.Ts[(i+round)%len(inp.Ts)]
+					s := adDecodeOne(c, ts, rw)
+					key, _ := json.Marshal([]interface{}{c.N, c.F, ts, s})
+					if seen[string(key)] || atomic.LoadInt64(&emitted) > 4000 {
+						continue
+					}
+					seen[string(key)] = true
+					atomic.AddInt64(&emitted, 1)
+					tr.Emit(1, "Decode", map[string]interface{}{"n": c.N, "f": c.F, "ts": ts, "mode": "concurrent"}, s)
+				}
+			}
+		}(w)
+	}
+	wg.Wait()
 	fmt.Println("VERIF-DECODED", k)
 }
